@@ -136,6 +136,8 @@ type Exec struct {
 	specErrors      []string
 	predFamilies    map[string][]string
 	assumedSafe     map[string]bool
+	synthAlias      []synthAlias
+	droppedLoops    map[int]bool
 	mergeMap        map[string][]mergeAlt
 	mergeSeq        []string
 	predBranch      map[string]map[string]string // merged-state instance -> branch pc -> branch instance
@@ -240,6 +242,11 @@ func (e *Exec) assume(st *State, f Term) {
 }
 
 // globalAxiom appends a premise that is relevant on every path.
+type synthAlias struct {
+	name string
+	ctr  *types.Var
+}
+
 type predBridge struct {
 	from, to string
 	ndecl    int
